@@ -125,11 +125,12 @@ func materialise(dir string, s fsState) {
 }
 
 type crashCase struct {
-	Users   int    `json:"users"`
-	Change  string `json:"change"`
-	OpIndex int    `json:"op_index"` // ops fully applied before the crash
-	Partial int    `json:"partial"`  // bytes of op[OpIndex] persisted (-1: none of it started)
-	Fault   bool   `json:"fault"`    // write failure instead of crash
+	Users       int    `json:"users"`
+	Change      string `json:"change"`
+	OpIndex     int    `json:"op_index"`     // ops fully applied before the crash
+	Partial     int    `json:"partial"`      // bytes of op[OpIndex] persisted (-1: none of it started)
+	Fault       bool   `json:"fault"`        // write failure instead of crash
+	RenameFault bool   `json:"rename_fault"` // the rename into place fails
 }
 
 // runCrashCase returns (signature, message) if the store is destroyed.
@@ -157,6 +158,7 @@ func runCrashCase(c crashCase, work string) (string, string, int) {
 	if c.Fault {
 		rec.FailWriteIndex, rec.FailWriteAt = 0, c.Partial
 	}
+	rec.FailRename = c.RenameFault
 	vos.Rec = rec
 	saveErr := ms.VerifSaveNow()
 	vos.Rec = nil
@@ -173,6 +175,34 @@ func runCrashCase(c crashCase, work string) (string, string, int) {
 			return "store-loads-neither-previous-nor-new-users-after-" + when, fmt.Sprintf("%s: after %s a restart loads %s, which is neither the previous set %s nor the new set %s", where, when, got, setString(prev), setString(next))
 		}
 		return "", ""
+	}
+	if c.RenameFault {
+		renamed := false
+		for _, o := range rec.Ops {
+			if o.Kind == "rename" {
+				renamed = true
+			}
+		}
+		_ = renamed
+		if saveErr == nil {
+			// the save path does not rename (or ignored the failure): the store must then hold the new set
+			if sig, msg := checkDir(live, "a failed rename that the save did not report"); sig != "" {
+				return sig, msg, transitions
+			}
+			return "", "", transitions
+		}
+		if sig, msg := checkDir(live, "a failed rename into place"); sig != "" {
+			return sig, msg, transitions
+		}
+		if err := ms.VerifSaveNow(); err != nil {
+			return "save-after-rename-error-fails", where + ": save after a failed rename fails: " + err.Error(), transitions
+		}
+		ms3, err := register(path)
+		transitions++
+		if err != nil || setString(credSet(ms3)) != setString(next) {
+			return "save-after-rename-error-wrong", fmt.Sprintf("%s: after a failed then a successful save a restart does not load the new set: %v", where, err), transitions
+		}
+		return "", "", transitions
 	}
 	if c.Fault {
 		if saveErr == nil {
@@ -271,6 +301,18 @@ func crashPart(c *harness.Check) {
 					if sig != "" {
 						c.Violation(sig, msg, map[string]any{"kind": "crash", "case": cc})
 					}
+				}
+			}
+			{
+				cc := crashCase{Users: n, Change: ch, RenameFault: true}
+				sig, msg, tr := runCrashCase(cc, work)
+				if tr > 1 {
+					cases++
+					trans += int64(tr)
+					c.Distinct(fmt.Sprintf("renamefault|%d|%s", n, ch), true)
+				}
+				if sig != "" {
+					c.Violation(sig, msg, map[string]any{"kind": "crash", "case": cc})
 				}
 			}
 			for part := 0; part <= maxDoc; part++ {
